@@ -64,7 +64,10 @@ func (p *Producer) LastTime() time.Time {
 // New builds a fresh producer world.
 func New(o world.NodeOpts) (*Producer, error) {
 	ctx := context.Background()
-	sgn, _, pub := world.SignerFromSeed("proposer")
+	if o.KeyLabel == "" {
+		o.KeyLabel = "proposer"
+	}
+	sgn, _, pub := world.SignerFromSeed(o.KeyLabel)
 	if o.ChainID == "" {
 		o.ChainID = "verif-chain"
 	}
